@@ -163,7 +163,7 @@ theorem decodeValue_slice (n : Nat) (e : Kind) (delim strip value : Bytes)
 
 theorem decodeValue_slice_empty (n : Nat) (e : Kind) (delim strip value : Bytes) (old : Val)
     (h : Str.trimSet strip value = []) :
-    decodeValue (n+1) (.slice e) delim strip old value = .ok old := by
+    decodeValue (n+1) (.slice e) delim strip old value = .ok .zero := by
   rw [decodeValue.eq_def]
   simp only [h, List.isEmpty_nil, if_true]
 
